@@ -42,6 +42,7 @@ type Effect struct {
 	Offset ssa.Value // row offset expression (stripped of the word/bit arithmetic), if recognisable
 	Val    ssa.Value // value stored / key inserted
 	Lock   string
+	Inlined bool // found inside a helper the body calls; operands are not tracked
 }
 
 type ArmLoop struct {
@@ -114,6 +115,16 @@ func FindArmLoops(p *Prog, fn *ssa.Function) []*ArmLoop {
 
 // typeTest recognises `r.Type == K` / `r.Type != K`.
 func typeTest(cond ssa.Value) (k int, eq bool, ok bool) {
+	if c, isCall := cond.(*ssa.Call); isCall {
+		// the reader's own predicates: IsUpsert ≡ Type==Put, IsDelete ≡ Type==Delete, Bool ≡ Type==PutTrue
+		switch {
+		case methodOn(&c.Call, CommitPath, "Reader", "IsUpsert"), methodOn(&c.Call, CommitPath, "Reader", "Bool"):
+			return opPut, true, true
+		case methodOn(&c.Call, CommitPath, "Reader", "IsDelete"):
+			return opDelete, true, true
+		}
+		return 0, false, false
+	}
 	bo, isBin := cond.(*ssa.BinOp)
 	if !isBin || (bo.Op != token.EQL && bo.Op != token.NEQ) {
 		return 0, false, false
@@ -299,10 +310,41 @@ func (a *ArmLoop) computeEffects() {
 		}
 		return L.classifyLock(cc, a.Fn)
 	}
+	// effects of library helpers called from the body are attributed to the call site
+	// (inlining bound 3); their row expressions are not tracked (Inlined)
+	var helper func(fn *ssa.Function, depth int, seen map[*ssa.Function]bool) []Effect
+	helper = func(fn *ssa.Function, depth int, seen map[*ssa.Function]bool) []Effect {
+		if fn == nil || fn.Blocks == nil || depth > 3 || seen[fn] || !a.P.InLib(fn) {
+			return nil
+		}
+		if rn := recvNamed(fn); rn != nil && rn.Obj().Pkg() != nil && rn.Obj().Pkg().Path() == CommitPath {
+			return nil // reader/buffer methods are primitives (swap, reads)
+		}
+		seen[fn] = true
+		var out []Effect
+		allInstrs(fn, func(ins ssa.Instruction) {
+			if e, ok := classify(a.P, ins, nil); ok {
+				e.Offset, e.Inlined = nil, true
+				out = append(out, e)
+				return
+			}
+			if cc, _, _ := callCommon(ins); cc != nil && cc.StaticCallee() != nil {
+				out = append(out, helper(cc.StaticCallee(), depth+1, seen)...)
+			}
+		})
+		return out
+	}
 	for b := range a.InBody {
 		for _, ins := range b.Instrs {
 			if e, ok := classify(a.P, ins, lf); ok {
 				a.Effects[b] = append(a.Effects[b], e)
+				continue
+			}
+			if cc, _, _ := callCommon(ins); cc != nil && cc.StaticCallee() != nil {
+				for _, e := range helper(cc.StaticCallee(), 1, map[*ssa.Function]bool{}) {
+					e.Ins = ins
+					a.Effects[b] = append(a.Effects[b], e)
+				}
 			}
 		}
 	}
